@@ -98,6 +98,46 @@ fn spec_elems(profile: u16, d: &[u8]) -> Option<Vec<(u8, Vec<u8>)>> {
     } else { None }
 }
 
+/// The reference (`rtp` 0.17) mishandles the RFC 8285 "stop" id 15 (it leaves the rest of the block in
+/// the payload) and panics on overrunning elements; those blocks are outside the comparison.
+fn ref_fair_ext(e: &Option<RtpHeaderExtension>) -> bool {
+    match e {
+        None => true,
+        Some(x) if x.profile != 0xBEDE && x.profile != 0x1000 => true,
+        Some(x) => spec_elems(x.profile, &x.data).is_some()
+            && !(x.profile == 0xBEDE && has_stop15(&x.data)),
+    }
+}
+fn has_stop15(d: &[u8]) -> bool {
+    let mut i = 0;
+    while i < d.len() { let b = d[i]; if b == 0 { i += 1; continue; } if b >> 4 == 15 { return true; } i += 2 + (b & 15) as usize; }
+    false
+}
+
+/// what the reference (`rtcp` 0.17) can represent faithfully: SDES item types 1..8, REMB bitrate ≠ 0
+/// (it decodes mantissa 0 as 2^23), TWCC only with a status/delta payload it accepts itself.
+fn ref_comparable(p: &RtcpPacket, twcc_ok: bool) -> bool {
+    match p {
+        RtcpPacket::SourceDescription(s) => s.chunks.iter().all(|c| c.items.iter().all(|i| (1..=8).contains(&i.ty))),
+        RtcpPacket::RemoteBitrateEstimate(r) => r.bitrate_bps != 0,
+        RtcpPacket::TransportWideCc(_) => twcc_ok,
+        _ => true,
+    }
+}
+
+/// number of records a packet carries (report blocks / chunks+items / sources / FIR entries / SSRCs)
+fn cardinality(p: &RtcpPacket) -> Vec<usize> {
+    match p {
+        RtcpPacket::SenderReport(s) => vec![s.report_blocks.len()],
+        RtcpPacket::ReceiverReport(s) => vec![s.report_blocks.len()],
+        RtcpPacket::SourceDescription(s) => std::iter::once(s.chunks.len()).chain(s.chunks.iter().map(|c| c.items.len())).collect(),
+        RtcpPacket::Goodbye(b) => vec![b.sources.len(), b.reason.is_some() as usize],
+        RtcpPacket::FullIntraRequest(f) => vec![f.requests.len()],
+        RtcpPacket::RemoteBitrateEstimate(r) => vec![r.ssrcs.len()],
+        _ => vec![],
+    }
+}
+
 // ------------------------------------------------------------------------------------------------
 // streams: each takes the canonical input text, returns (implementation output, oracle failures)
 
@@ -125,7 +165,7 @@ pub fn s_rtp_marshal(run: &mut Run, t: &str) -> (String, Fails) {
                     Ok(p) => f.push((format!("codec:rtp:roundtrip:{}", first_diff(&q, &p)), show_pkt(&p))),
                     Err(e) => f.push(("codec:rtp:roundtrip:unparsable".into(), show_err(&e))),
                 }
-                let ext_plain = q.header.extension.as_ref().map_or(true, |e| spec_elems(e.profile, &e.data).is_some() || (e.profile != 0xBEDE && e.profile != 0x1000));
+                let ext_plain = ref_fair_ext(&q.header.extension);
                 match refc::ref_parse_rtp(b) {
                     Ok(rp) => { run.count("rtp_ref_parsed");
                         // rustrtc's padding_len is not part of the reference's view; payload is
@@ -155,13 +195,13 @@ pub fn s_rtp_parse(run: &mut Run, hx: &str, from_ref: bool) -> (String, Fails) {
                     Err(e) => f.push(("codec:rtp:semantic-stable:unparsable".into(), show_err(&e))),
                 },
             }
-            match refc::ref_parse_rtp(&b) {
+            if !ref_fair_ext(&p.header.extension) { run.count("rtp_parse_ref_skipped_malformed_ext"); } else { match refc::ref_parse_rtp(&b) {
                 Ok(rp) => match refc::cmp_rtp(&p, &rp) {
                     None => run.count("rtp_parse_agrees_with_ref"),
                     Some(d) => f.push((format!("codec:rtp:{}:{d}", if from_ref { "parse-of-ref-bytes" } else { "ref-disagree" }), format!("{:?}", rp.header))),
                 },
                 Err(e) => run.count(if e.starts_with("panic") { "rtp_parse_ref_panics" } else { "rtp_parse_ref_stricter" }),
-            }
+            } }
             format!("ok {} {}", show_pkt(&p), res_hex(m))
         }
     };
@@ -197,7 +237,7 @@ pub fn s_ext_set(run: &mut Run, e: &str, id: &str, d: &str) -> (String, Fails) {
     let r = catch(move || { let r = h.set_extension(id, &data2); (r, h) });
     let out = match r {
         Err(p) => { run.count("ext_set_panics");
-            f.push(("panic:set_extension:element-overruns-block".into(), p)); "panic".into() }
+            f.push(("panic:set_extension".into(), p)); "panic".into() }
         Ok((Err(e), h1)) => {
             if h1 != h0 { f.push(("codec:ext:error-mutates-header".into(), show_ext(&h1.extension))); }
             format!("err:{}", match e { rustrtc::errors::RtpError::InvalidHeader(m) => m.replace(' ', "_"), o => format!("{o:?}") })
@@ -249,7 +289,7 @@ pub fn s_rtcp_marshal(run: &mut Run, toks: &[&str]) -> (String, Fails) {
                 Err(p) => f.push((tag("roundtrip-panics"), p)),
                 Ok(Err(e)) => { if framing_domain { f.push((tag("framing"), format!("own output unparsable: {}", show_err(&e)))); } }
                 Ok(Ok(back)) => {
-                    let same_kinds = back.len() == ps.len() && back.iter().zip(&ps).all(|(a, b)| kind(a) == kind(b));
+                    let same_kinds = back.len() == ps.len() && back.iter().zip(&ps).all(|(a, b)| kind(a) == kind(b) && cardinality(a) == cardinality(b));
                     if !same_kinds { if framing_domain { f.push((tag("framing"), format!("sent {} packets, parsed {}: {}", ps.len(), back.len(), show_rtcps(&back)))); } }
                     else if all_in {
                         let want: Vec<RtcpPacket> = ps.iter().map(norm).collect();
@@ -260,7 +300,7 @@ pub fn s_rtcp_marshal(run: &mut Run, toks: &[&str]) -> (String, Fails) {
                     }
                 }
             }
-            if all_in {
+            if all_in && ps.iter().all(|p| ref_comparable(p, false)) {
                 // an independent implementation parses the same fields …
                 match refc::ref_parse_rtcp(b) {
                     Ok(texts) => {
@@ -305,7 +345,11 @@ pub fn s_rtcp_parse(run: &mut Run, hx: &str) -> (String, Fails) {
         Ok(Ok(ps)) => {
             let ps2 = ps.clone();
             let m = match catch(move || marshal_rtcp_packets(&ps2)) { Ok(m) => m, Err(p) => { f.push(("panic:rtcp_marshal".into(), p)); return ("panic".into(), f); } };
-            if let Ok(mb) = &m {
+            // ill-formed UTF-8 on the wire is replaced by U+FFFD (3 bytes each) and can push a text beyond the
+            // 255-byte field: such input is not a well-formed packet and is outside the stability oracle
+            let expanded = ps.iter().any(|p| matches!(range_class(p), Some("text>255") | Some("reason>255")));
+            if expanded { run.count("rtcp_parse_lossy_expansion_beyond_255"); }
+            else if let Ok(mb) = &m {
                 // serialising a parsed packet and parsing again gives the same logical packets (NACK: same set)
                 let tag = |p: &RtcpPacket| format!("codec:{}:semantic-stable{}", kind(p), range_class(p).map_or(String::new(), |c| format!(":{c}")));
                 match parse_c(mb) {
@@ -322,7 +366,11 @@ pub fn s_rtcp_parse(run: &mut Run, hx: &str) -> (String, Fails) {
             } else if ps.iter().all(|p| range_class(p).is_none()) {
                 f.push((format!("codec:{}:parsed-not-marshalable", ps.first().map_or("compound", kind)), res_hex(m.clone())));
             }
-            if let Ok(texts) = refc::ref_parse_rtcp(&b) {
+            let padded = { let mut off = 0; let mut any = false; while off + 4 <= b.len() { any |= b[off] & 0x20 != 0; off += (u16::from_be_bytes([b[off + 2], b[off + 3]]) as usize + 1) * 4; } any };
+            // (the reference does not strip RTCP padding from NACK / REMB / FIR bodies)
+            if padded && !ps.iter().all(|p| matches!(p, RtcpPacket::TransportWideCc(_) | RtcpPacket::Goodbye(_) | RtcpPacket::SenderReport(_) | RtcpPacket::ReceiverReport(_))) { run.count("rtcp_parse_ref_skipped_padding"); }
+            else if !ps.iter().all(|p| ref_comparable(p, true)) { run.count("rtcp_parse_ref_skipped_not_comparable"); }
+            else if let Ok(texts) = refc::ref_parse_rtcp(&b) {
                 if texts.len() == ps.len() {
                     for (p, t) in ps.iter().zip(&texts) { if let Some(t) = t {
                         // compare only where the text is valid UTF-8 and the SDES types are the reference's
